@@ -392,3 +392,40 @@ type TimeCarrier struct {
 	A  []interface{}
 	T2 time.Time
 }
+
+// ---- carriers for C05 (3, 4, 5 and 9 fields; scalar, string, list, nested-object fields)
+
+type F3 struct {
+	A int32
+	B string
+	C float64
+}
+
+type F4 struct {
+	A int64
+	B []int32
+	C *Inner
+	D bool
+}
+
+type F5 struct {
+	A int32
+	B string
+	C []string
+	D Inner
+	E []byte
+}
+
+type F9 struct {
+	A int32
+	B string
+	C map[string]int32
+	D time.Time
+	E uint16
+	F []*Inner
+	G float32
+	H int64
+	I []interface{}
+}
+
+var FTypes = []reflect.Type{reflect.TypeOf(F3{}), reflect.TypeOf(F4{}), reflect.TypeOf(F5{}), reflect.TypeOf(F9{})}
